@@ -36,7 +36,8 @@ REQUIRED_OBS = ["reconnects_judged", "refresh_requests_at_open", "converged_afte
                 "poll_restarted_by_status", "poll_after_reconnection", "flapping_reconnections",
                 "refused_attempts_before_reconnection", "initialised_after_init_gave_up",
                 "reconnections_with_commands_pending",
-                "reconnections_after_the_held_commands_expired"]
+                "reconnections_after_the_held_commands_expired",
+                "poll_on_installation_without_sensors"]
 SOAK = True   # also judged by the whole-run monitors of the soak sessions (vf/soak.py)
 BUDGET = {"quick": 100, "thorough": 1500}
 
@@ -377,7 +378,17 @@ def run_poll(case):
 
     async def main(loop, net, log):
         knobs = C.Knobs(broadcast=False)
-        w = AW.ModelWorld(4, loop, net, log, C.default_installation(4, 1, (3,)), knobs)
+        inst = C.default_installation(4, 1, (3,))
+        flavour = case["seed"] % 4
+        if flavour == 1:
+            # a damper-only installation: no group has a temperature sensor
+            for z in inst["zones"]:
+                z["status"]["sensor"] = False
+                z["status"]["control_method"] = "damper"
+            obs["poll_on_installation_without_sensors"] = 1
+        elif flavour == 2:
+            inst = C.default_installation(4, 2, (1, 2))
+        w = AW.ModelWorld(4, loop, net, log, inst, knobs)
         if case.get("late_init"):
             # a slow console: init() gives up after 5 s (False), the handshake completes in the
             # background 6 x late_init after the call; the silence clock starts with the group
